@@ -10,46 +10,44 @@ DEF = dict(orders="OrdOne", full="TRUE", points="Pts1", feeds="NoFeeds", phases=
            names="NmId", pforms="PfPlain", cont="CtList")
 
 KIN = {
-    "sys3_q": dict(cat="Cat8", maxr=3),
+    "sys3_q": dict(cat="Cat6", maxr=3),
     "sys2_q": dict(cat="Cat16", maxr=2, feeds="FdRev", pforms="PfAll"),
-    "orders_q": dict(cat="Cat8", maxr=2, orders="OrdAll", full="FALSE", names="NmIon", cont="CtAll"),
-    "frac_q": dict(cat="Cat8", maxr=2, points="PtsFrac", feeds="Fd2"),
-    "hist_q": dict(cat="Cat8", maxr=2, phases="Ph2", rek="ReK1", maxhist=2, pforms="PfMa"),
-    "zero_q": dict(cat="Cat8", maxr=2, points="PtsZero", feeds="FdZero", kvals="KZ", pforms="PfAll"),
-    "zero_t": dict(cat="Cat32", maxr=2, points="PtsZero", feeds="FdZero", kvals="KZ", pforms="PfAll", cont="CtAll"),
+    "orders_q": dict(cat="Cat8", maxr=2, orders="OrdSome", full="FALSE", names="NmIon", cont="CtAll"),
+    "hist_q": dict(cat="Cat8", maxr=2, points="Pts13", rek="ReK1", maxhist=2, pforms="PfMa"),
+    "zero_q": dict(cat="Cat8", maxr=2, points="PtsZ1", feeds="FdZero", kvals="KZ", phases="Ph2", pforms="PfAll"),
+    "zero_t": dict(cat="Cat16", maxr=2, points="PtsZero", feeds="FdZero", kvals="KZ", pforms="PfAll", cont="CtAll"),
     "half_q": dict(cat="CatHalf", maxr=2, points="PtsSq", feeds="Fd1", pforms="PfMa"),
     "half_t": dict(cat="CatHalfW", maxr=2, points="PtsSq", feeds="Fd1", pforms="PfAll", cont="CtAll"),
-    "sys3_t": dict(cat="Cat32", maxr=3),
-    "sys2_t": dict(cat="Cat64", maxr=2, points="Pts2", pforms="PfAll"),
-    "cstr_t": dict(cat="Cat32", maxr=2, points="Pts2", feeds="Fd2", cont="CtAll"),
+    "sys3_t": dict(cat="Cat16", maxr=3),
+    "sys2_t": dict(cat="Cat64", maxr=2, pforms="PfAll"),
+    "cstr_t": dict(cat="Cat16", maxr=2, points="Pts2", feeds="Fd2", cont="CtAll"),
     "orders_t": dict(cat="Cat16", maxr=2, orders="OrdAll", names="NmIon", cont="CtAll"),
     "frac_t": dict(cat="Cat16", maxr=2, orders="OrdTwo", full="FALSE", points="PtsFrac", feeds="Fd2", pforms="PfMa"),
     "phase_t": dict(cat="Cat32", maxr=2, phases="Ph3", names="NmIon"),
     "feedmap_t": dict(cat="Cat32", maxr=2, feeds="FdKinds", pforms="PfAll"),
-    "hist_t": dict(cat="Cat16", maxr=2, feeds="FdRev", rek="ReK", maxhist=2, pforms="PfMa"),
+    "hist_t": dict(cat="Cat8", maxr=2, feeds="FdRev", rek="ReK", maxhist=2, pforms="PfMa"),
 }
 ODE = {
     "main_q": dict(cat="Cat3", maxr=2, full="FALSE", configs="CfgMainQ", rek="ReK1", maxhist=1, names="NmIon"),
     "feeds_q": dict(cat="Cat2", maxr=2, full="FALSE", feeds="FdKinds", configs="CfgFeedsQ"),
-    "sys_q": dict(cat="Cat8", maxr=2, full="FALSE", configs="CfgThree", names="NmIon"),
     "full_q": dict(cat="Cat8", maxr=1, orders="OrdTwo", feeds="Fd1", configs="CfgFewBoth"),
     "zero_q": dict(cat="Cat2", maxr=2, full="FALSE", points="PtsZ1", feeds="FdZero2", kvals="KZ", configs="CfgZeroQ"),
     "zero_t": dict(cat="Cat3", maxr=2, full="FALSE", points="PtsZ1", feeds="FdZero", kvals="KZ", configs="CfgZero"),
-    "extra_t": dict(cat="Cat8", maxr=3, full="FALSE", feeds="Fd1", configs="CfgExtraT"),
+    "extra_t": dict(cat="Cat8", maxr=2, full="FALSE", feeds="Fd1", configs="CfgExtraT"),
     "half_q": dict(cat="CatHalf", maxr=2, full="FALSE", points="PtsSq", feeds="Fd1", configs="CfgThree"),
     "half_t": dict(cat="CatHalfW", maxr=2, full="FALSE", points="PtsSq", feeds="Fd1", configs="CfgFewBoth"),
-    "cfg_t": dict(cat="Cat8", maxr=2, full="FALSE", feeds="Fd1", configs="CfgAll"),
+    "cfg_t": dict(cat="Cat8", maxr=2, full="FALSE", configs="CfgAll"),
     "comp_t": dict(cat="Cat4", maxr=2, orders="OrdTwo", full="FALSE", feeds="Fd1", configs="CfgAllComp"),
     "sys_t": dict(cat="Cat32", maxr=2, full="FALSE", configs="CfgFew", names="NmIon"),
-    "sys3_t": dict(cat="Cat16", maxr=3, full="FALSE", configs="CfgThree"),
-    "full_t": dict(cat="Cat16", maxr=2, orders="OrdTwo", feeds="Fd1", configs="CfgFewBoth"),
+    "sys3_t": dict(cat="Cat8", maxr=3, full="FALSE", configs="CfgThree"),
+    "full_t": dict(cat="Cat16", maxr=2, feeds="Fd1", configs="CfgFewBoth"),
     "orders_t": dict(cat="Cat8", maxr=2, orders="OrdAll", full="FALSE", configs="CfgFew"),
     "const_t": dict(cat="Cat4", maxr=2, full="FALSE", feeds="Fd1", configs="CfgConst"),
-    "constw_t": dict(cat="Cat16", maxr=2, full="FALSE", feeds="Fd1", configs="CfgConstFew"),
-    "sym_t": dict(cat="Cat16", maxr=2, full="FALSE", feeds="Fd1", configs="CfgSym"),
+    "constw_t": dict(cat="Cat8", maxr=2, full="FALSE", feeds="Fd1", configs="CfgConstFew"),
+    "sym_t": dict(cat="Cat8", maxr=2, full="FALSE", feeds="Fd1", configs="CfgSym"),
     "uk2_t": dict(cat="Cat8", maxr=2, full="FALSE", configs="CfgUk2"),
-    "feedmap_t": dict(cat="Cat16", maxr=2, full="FALSE", feeds="FdKinds", configs="CfgFewCstr"),
-    "hist_t": dict(cat="Cat8", maxr=2, full="FALSE", configs="CfgFew", rek="ReK", maxhist=2),
+    "feedmap_t": dict(cat="Cat8", maxr=2, full="FALSE", feeds="FdKinds", configs="CfgFewCstr"),
+    "hist_t": dict(cat="Cat8", maxr=2, full="FALSE", configs="CfgFew", rek="ReK", maxhist=1),
     "forms_t": dict(cat="Cat8", maxr=2, full="FALSE", feeds="Fd1", configs="CfgForms", names="NmIon"),
 }
 
